@@ -1,8 +1,8 @@
 /-
 Two small concrete codecs that satisfy H-zlib (`HDeflate`, `HInflate`).  They serve as
 (1) non-vacuity witnesses for the hypotheses of the C20 theorems and (2) the engines of the
-counter-examples to the full-strength statements (D22, D23, D24, D30, D32), which the kernel
-evaluates (`decide`).  They are deliberately simple; nothing about zlib is claimed here.
+regression examples in Props/C20.lean — the inputs that refuted the full-strength statements
+before the fixes D22–D24, D30–D33 (evaluated by the kernel with `decide`).  They are deliberately simple; nothing about zlib is claimed here.
 
 * `toyA`: deflate copies input to output as far as there is room (no internal buffering);
   inflate strips a one-byte stream header and copies the rest.
@@ -22,6 +22,20 @@ structure Hist where
   hdr : Bool := false
   cons : Bytes := []
   prod : Bytes := []
+
+theorem ite_cases' {α : Type} (c : Prop) [Decidable c] (a b : α) :
+    (if c then b else a) = a ∨ (if c then b else a) = b := by
+  split
+  · exact Or.inr rfl
+  · exact Or.inl rfl
+
+theorem ite_eq_right {α : Type} (c : Prop) [Decidable c] (a b : α) (hab : a ≠ b)
+    (h : (if c then b else a) = b) : c := by
+  by_cases hc : c
+  · exact hc
+  · rw [if_neg hc] at h; exact absurd h hab
+
+theorem zOk_ne_bufError : Gen.Zl.zOk ≠ Gen.Zl.zBufError := by decide
 
 /-! ### toyA -/
 
@@ -60,10 +74,13 @@ def toyA_deflate : HDeflate toyA where
     simp only [List.length_take]; omega
   step_cons := by intro d inp fl room _; rfl
   step_prod := by intro d inp fl room _; rfl
-  no_stream_end := by
-    intro d inp fl room _
-    show (if min inp.length room = 0 then Gen.Zl.zBufError else Gen.Zl.zOk) ≠ Gen.Zl.zStreamEnd
-    split <;> decide
+  no_error := fun _ _ _ _ _ => ite_cases' _ _ _
+  progress := by
+    intro d inp fl room _ hne hroom
+    show (if min inp.length room = 0 then Gen.Zl.zBufError else Gen.Zl.zOk) ≠ Gen.Zl.zBufError
+    have hpos : 0 < inp.length := List.length_pos_iff.mpr hne
+    have : ¬ (min inp.length room = 0) := by omega
+    rw [if_neg this]; decide
   decode_prefix := by intro d p h hp; rw [← h]; exact hp
   flush_complete := by
     intro d inp fl room h _ _ _
@@ -136,6 +153,16 @@ def toyA_inflate : HInflate toyA where
   step_prod := by intro i inp room _; rfl
   complete := fun i inp room h _ hlt =>
     ⟨hdrInflate_complete i inp room hlt, (hdrInflate_ok i inp room h).1⟩
+  buf_error := by
+    intro i inp room _ hrc
+    have hc := ite_eq_right _ _ _ zOk_ne_bufError hrc
+    have hc' : (if i.hdr then 0 else min 1 inp.length) +
+        min (inp.drop (if i.hdr then 0 else min 1 inp.length)).length room = 0 := hc
+    refine ⟨hc, ?_⟩
+    show (inp.drop _).take (min (inp.drop (if i.hdr then 0 else min 1 inp.length)).length room) = []
+    have : min (inp.drop (if i.hdr then 0 else min 1 inp.length)).length room = 0 := by omega
+    rw [this]; rfl
+  buf_error_complete := fun i _ h _ _ => h.1
 
 /-! ### toyB -/
 
@@ -190,13 +217,13 @@ def toyB_deflate : HDeflate toyB where
     show d.cons ++ inp = d.cons ++ inp.take inp.length
     rw [List.take_length]
   step_prod := by intro d inp fl room _; rfl
-  no_stream_end := by
-    intro d inp fl room _
+  no_error := fun _ _ _ _ _ => ite_cases' _ _ _
+  progress := by
+    intro d inp fl room _ hne _
     show (if inp = [] ∧ (if fl = 0 then [] else (d.pend ++ inp).take room) = [] then Gen.Zl.zBufError
-      else Gen.Zl.zOk) ≠ Gen.Zl.zStreamEnd
-    by_cases hc : inp = [] ∧ (if fl = 0 then [] else (d.pend ++ inp).take room) = []
-    · rw [if_pos hc]; decide
-    · rw [if_neg hc]; decide
+      else Gen.Zl.zOk) ≠ Gen.Zl.zBufError
+    have : ¬ (inp = [] ∧ (if fl = 0 then [] else (d.pend ++ inp).take room) = []) := fun h => hne h.1
+    rw [if_neg this]; decide
   decode_prefix := by
     intro d p h hp
     exact hp.trans ⟨d.pend, h⟩
@@ -269,6 +296,25 @@ def toyB_inflate : HInflate toyB where
     have hp : (dblInflate i inp room).1.pend = [] := take_short_drop_nil _ _ hlt
     rw [hp, List.append_nil] at hok
     exact hok
+  buf_error := by
+    intro i inp room _ hrc
+    have hc : inp = [] ∧ (i.pend ++ dbl inp).take room = [] := ite_eq_right _ _ _ zOk_ne_bufError hrc
+    exact ⟨by show inp.length = 0; rw [hc.1]; rfl, hc.2⟩
+  buf_error_complete := by
+    intro i room h hroom hrc
+    have hc : ([] : Bytes) = [] ∧ (i.pend ++ dbl []).take room = [] := ite_eq_right _ _ _ zOk_ne_bufError hrc
+    have hp : i.pend = [] := by
+      have h2 := hc.2
+      simp only [dbl, List.flatMap_nil, List.append_nil] at h2
+      cases hpd : i.pend with
+      | nil => rfl
+      | cons a t =>
+        rw [hpd] at h2
+        cases room with
+        | zero => omega
+        | succ r => simp at h2
+    show i.prod = dbl i.cons
+    rw [← h, hp, List.append_nil]
 
 /-! the toy inflaters never report an error (healthy streams only) -/
 
@@ -334,6 +380,26 @@ def toyC_inflate : HInflate toyC where
     show min inp.length ((room - i.pend.length + 1) / 2) = inp.length
     simp only [List.length_take, List.length_append, dbl_length] at hlt'
     omega
+  buf_error := by
+    intro i inp room _ hrc
+    exact ite_eq_right _ _ _ zOk_ne_bufError hrc
+  buf_error_complete := by
+    intro i room h hroom hrc
+    have hc : min ([] : Bytes).length ((room - i.pend.length + 1) / 2) = 0 ∧
+        (i.pend ++ dbl (([] : Bytes).take (min ([] : Bytes).length ((room - i.pend.length + 1) / 2)))).take room = [] :=
+      ite_eq_right _ _ _ zOk_ne_bufError hrc
+    have hp : i.pend = [] := by
+      have h2 := hc.2
+      simp only [List.length_nil, Nat.zero_min, List.take_nil, dbl, List.flatMap_nil, List.append_nil] at h2
+      cases hpd : i.pend with
+      | nil => rfl
+      | cons a t =>
+        rw [hpd] at h2
+        cases room with
+        | zero => omega
+        | succ r => simp at h2
+    show i.prod = dbl i.cons
+    rw [← h, hp, List.append_nil]
 
 theorem toyC_inflate_never_errors : ∀ i inp room, (toyC.inflate i inp room).2.2.2 = Gen.Zl.zOk ∨
     (toyC.inflate i inp room).2.2.2 = Gen.Zl.zBufError :=
